@@ -126,6 +126,8 @@ func c10Gen(tier string, seed int64) []ev.Case {
 			cs = append(cs, ev.MkCase("batch", c10Batch{Mode: "in", Cmd: cmd, K: kin - 1, From: f, To: f + chunk, Cancel: true, Seed: seed}))
 		}
 	}
+	// callers' contexts without a deadline: each attempt must still be bounded
+	cs = append(cs, ev.MkCase("batch", c10Batch{Mode: "nodeadline", Seed: seed}))
 	// every completion code, alone and after a retry
 	for _, cmd := range c10CmdsSL {
 		cs = append(cs, ev.MkCase("batch", c10Batch{Mode: "sl", Cmd: cmd, K: -1, Seed: seed}))
@@ -156,6 +158,8 @@ func c10Exec(run *ev.Run, c ev.Case) {
 		var b c10Batch
 		c.Decode(&b)
 		switch b.Mode {
+		case "nodeadline":
+			c10NoDeadline(run, b.Seed)
 		case "hs":
 			tot := c10Total(c10HSRetry, []string{"ok"}, b.K)
 			for i := b.From; i < b.To && i < tot; i++ {
@@ -172,6 +176,7 @@ func c10Exec(run *ev.Run, c ev.Case) {
 			cfg := defaultCfg(r)
 			suite := (b.From/1500 + len(b.Cmd)) % 9
 			se := NewScriptEnv(cfg, memtr.Window)
+			se.Strict = true
 			var sess *bmc.V2Session
 			if b.Mode == "in" {
 				ctx, cancel := se.LimitCtx(20)
@@ -531,4 +536,58 @@ func staleDeadlineAfterLoss(sends []memtr.SendRec) int {
 		}
 	}
 	return 0
+}
+
+// c10NoDeadline makes calls with contexts that can only be cancelled: the
+// transport must nevertheless be handed a deadline for every attempt (the
+// per-request timeout), or a lost reply would block the call for ever instead
+// of being retried (session-less) or ending the command (in a session).
+func c10NoDeadline(run *ev.Run, seed int64) {
+	for mi, mode := range []string{"sl", "in", "hs"} {
+		for _, script := range [][]string{nil, {"busy"}, {"garbage:noise", "tmo"}, {"lost"}} {
+			run.Eval(1)
+			cs := ev.MkCase("batch", c10Batch{Mode: "nodeadline", Seed: seed})
+			r := rng(seed+int64(mi), "c10nodeadline")
+			se := NewScriptEnv(defaultCfg(r), memtr.Window)
+			var conn bmc.Connection = se.ST
+			ctx, cancel := context.WithCancel(context.Background())
+			stop := time.AfterFunc(20*time.Second, cancel) // watchdog only
+			first := se.T.Len()
+			desc := fmt.Sprintf("mode %s script %v, caller context without a deadline", mode, script)
+			if mode == "hs" {
+				_, err := se.OpenSession(ctx, stdSuites()[int(seed+int64(len(script)))%9])
+				if err != nil {
+					run.Violation("C10:handshake-not-completed", desc+": "+err.Error(), cs, nil)
+				}
+			} else {
+				if mode == "in" {
+					s, err := se.OpenSession(ctx, stdSuites()[int(seed)%9])
+					if err != nil {
+						run.Violation("C10:handshake-failed", err.Error(), cs, nil)
+						stop.Stop()
+						cancel()
+						continue
+					}
+					conn = s
+					first = se.T.Len()
+				}
+				cmd, okBody, _, _, _ := c10Cmd([]string{"sl-guid", "devid"}[mi%2])
+				st := &scriptState{script: script, okBody: okBody, minBody: 0}
+				se.st = st
+				safe(func() { conn.SendCommand(ctx, cmd) })
+				se.st = nil
+			}
+			stop.Stop()
+			cancel()
+			recs := se.T.Since(first)
+			run.Event("attempt-contexts-observed", len(recs))
+			run.Nontrivial(desc)
+			for i, s := range recs {
+				if !s.HasDeadline {
+					run.Violation("C10:attempt-without-deadline:"+mode, fmt.Sprintf("%s: transmission %d was handed a context without a deadline: a lost reply would block it for ever", desc, i+1), cs, nil)
+					break
+				}
+			}
+		}
+	}
 }
